@@ -166,6 +166,10 @@ func (p *Prog) Events(fn *ssa.Function) []*Ev {
 				}
 				continue
 			case *ssa.Return:
+				if vs := p.splitReturn(fn, x); vs != nil {
+					out = append(out, vs...)
+					continue
+				}
 				ev = &Ev{Kind: "return"}
 				for _, rv := range x.Results {
 					ev.Args = append(ev.Args, Desc(resolveSpill(rv, in)))
@@ -186,6 +190,173 @@ func (p *Prog) Events(fn *ssa.Function) []*Ev {
 		}
 	}
 	return out
+}
+
+// splitReturn: a function written with a single exit (`err = X … return err`) returns a merge
+// of values.  Such a return is reported as one return per way into the merge: the value that
+// way carries, under the conditions of that way (and, where the code between the merge and
+// the return tests merged values — `if drop { m.Free() }` — those tests folded for that way).
+// The rules then see what they see in the multi-exit form of the same function.
+func (p *Prog) splitReturn(fn *ssa.Function, ret *ssa.Return) []*Ev {
+	var join *ssa.BasicBlock
+	res := make([]ssa.Value, len(ret.Results))
+	for i, rv := range ret.Results {
+		res[i] = resolveSpill(rv, ret)
+		if ph, ok := res[i].(*ssa.Phi); ok {
+			if join == nil {
+				join = ph.Block()
+			} else if join != ph.Block() {
+				return nil
+			}
+		}
+	}
+	if join == nil || len(join.Preds) < 2 || len(join.Preds) > 8 {
+		return nil
+	}
+	rb := ret.Block()
+	if join != rb && !join.Dominates(rb) {
+		return nil
+	}
+	// a merge at a loop header is not an exit merge
+	for _, pr := range join.Preds {
+		if join.Dominates(pr) {
+			return nil
+		}
+	}
+	// the conditions between the merge and the return
+	base := map[Atom]bool{}
+	for _, a := range p.GuardsOf(join) {
+		base[a] = true
+	}
+	var between []Atom
+	for _, a := range p.GuardsOf(rb) {
+		if !base[a] {
+			between = append(between, a)
+		}
+	}
+	held := p.mutexesHeld(fn, ret)
+	var out []*Ev
+	for k, pr := range join.Preds {
+		env := map[*ssa.Phi]ssa.Value{}
+		for _, in := range join.Instrs {
+			if ph, ok := in.(*ssa.Phi); ok {
+				env[ph] = ph.Edges[k]
+			}
+		}
+		subst := func(v ssa.Value) ssa.Value {
+			if ph, ok := v.(*ssa.Phi); ok {
+				if e, ok := env[ph]; ok {
+					return e
+				}
+			}
+			return v
+		}
+		e := &Ev{Fn: fn, In: ret, Kind: "return", Held: held}
+		for _, rv := range res {
+			e.Args = append(e.Args, Desc(subst(rv)))
+		}
+		seen := map[string]bool{}
+		add := func(s string) {
+			if !seen[s] {
+				seen[s] = true
+				e.Guard = append(e.Guard, s)
+			}
+		}
+		if len(pr.Instrs) > 0 {
+			for _, g := range p.GuardStrings(pr.Instrs[len(pr.Instrs)-1]) {
+				add(g)
+			}
+			if iff, ok := pr.Instrs[len(pr.Instrs)-1].(*ssa.If); ok && pr.Succs[0] != pr.Succs[1] {
+				for j, sc := range pr.Succs {
+					if sc == join {
+						add(NormAtom(iff.Cond, j == 0))
+					}
+				}
+			}
+		}
+		feasible := true
+		for _, a := range between {
+			c := a.Cond
+			// fold tests on merged values for this way
+			if v, known := foldUnder(c, env); known {
+				if v != a.Pol {
+					feasible = false
+				}
+				continue
+			}
+			add(NormAtom(c, a.Pol))
+		}
+		if feasible {
+			out = append(out, e)
+		}
+	}
+	if len(out) == 0 {
+		return nil
+	}
+	return out
+}
+
+// foldUnder evaluates a condition on merged values once the way into the merge is fixed:
+// a boolean merge that is a constant on that way, or a comparison of a merge with nil / a
+// constant where that way's value is a constant too.
+func foldUnder(c ssa.Value, env map[*ssa.Phi]ssa.Value) (bool, bool) {
+	val := func(v ssa.Value) ssa.Value {
+		if ph, ok := v.(*ssa.Phi); ok {
+			if e, ok := env[ph]; ok {
+				return e
+			}
+		}
+		return v
+	}
+	switch x := c.(type) {
+	case *ssa.Phi:
+		if k, ok := val(x).(*ssa.Const); ok && k.Value != nil && k.Value.Kind() == constant.Bool {
+			return constant.BoolVal(k.Value), true
+		}
+	case *ssa.UnOp:
+		if x.Op == token.NOT {
+			if v, ok := foldUnder(x.X, env); ok {
+				return !v, true
+			}
+		}
+	case *ssa.BinOp:
+		if x.Op != token.EQL && x.Op != token.NEQ {
+			return false, false
+		}
+		_, px := x.X.(*ssa.Phi)
+		_, py := x.Y.(*ssa.Phi)
+		if !px && !py {
+			return false, false
+		}
+		a, b := val(x.X), val(x.Y)
+		ca, oka := constLikeValue(a)
+		cb, okb := constLikeValue(b)
+		if oka && okb {
+			eq := ca == cb
+			return eq == (x.Op == token.EQL), true
+		}
+	}
+	return false, false
+}
+
+// constLikeValue: a rendering of a compile-time constant (through interface conversions).
+func constLikeValue(v ssa.Value) (string, bool) {
+	for {
+		switch x := v.(type) {
+		case *ssa.MakeInterface:
+			v = x.X
+			continue
+		case *ssa.ChangeType:
+			v = x.X
+			continue
+		case *ssa.Const:
+			if x.Value == nil {
+				return "nil", true
+			}
+			return x.Value.ExactString(), true
+		}
+		return "", false
+	}
 }
 
 // resolveSpill: functions with defer return through spilled result variables
